@@ -226,7 +226,7 @@ func domTombstone(r *engine.Run) {
 				"an entry's data is cloned and handed out on a path that did not test the entry's tombstone: a removed key would hit")
 		})
 	}
-	r.Min(rule, 4)
+	r.Min(rule, 3)
 }
 
 func domOwnFirst(r *engine.Run) {
@@ -480,6 +480,7 @@ func keySame(r *engine.Run) {
 	// commitRound links blockHash -> prevHash
 	if f, _ := r.P.Func(pkgSC, "StateCache", "commitRound"); f != nil && len(f.Blocks) > 0 {
 		r.Touch(f)
+		var linkKey, linkVal *ssa.Parameter
 		engine.Instrs(f, func(in ssa.Instruction) {
 			c, ok := in.(*ssa.Call)
 			if !ok || !lruCallOnField(c, "Add", "hashCache") {
@@ -489,8 +490,9 @@ func keySame(r *engine.Run) {
 			kp, _ := k.(*ssa.Parameter)
 			vp, _ := v.(*ssa.Parameter)
 			r.CallSites++
-			r.Check(kp != nil && vp != nil && kp.Name() == "blockHash" && vp.Name() == "prevHash", rule, fn(f)+"|link", r.P.Pos(c.Pos()),
-				"link stored as blockHash -> prevHash", "the block link is not stored as blockHash -> prevHash")
+			r.Check(kp != nil && vp != nil && kp != vp, rule, fn(f)+"|link", r.P.Pos(c.Pos()),
+				"link stored from one hash parameter to the other", "the block link is not stored as block hash -> previous block hash")
+			linkKey, linkVal = kp, vp
 		})
 		if g := r.Fn(rule, pkgSC, "StateCache", "commit"); g != nil {
 			engine.Instrs(g, func(in ssa.Instruction) {
@@ -499,7 +501,17 @@ func keySame(r *engine.Run) {
 					return
 				}
 				a := c.Call.Args
-				f1, f2 := fieldLoadOf(a[2]), fieldLoadOf(a[3])
+				// the argument that becomes the link's key is the block's own hash, the one
+				// that becomes its value the previous block's hash
+				var f1, f2 *types.Var
+				for i, p := range f.Params {
+					if linkVal != nil && p == linkVal && i < len(a) {
+						f1 = fieldLoadOf(a[i])
+					}
+					if linkKey != nil && p == linkKey && i < len(a) {
+						f2 = fieldLoadOf(a[i])
+					}
+				}
 				r.CallSites++
 				r.Check(f1 != nil && f2 != nil && f1.Name() == "prevBlockHash" && f2.Name() == "blockHash", rule, fn(g)+"|link-args", r.P.Pos(c.Pos()),
 					"commit links (prevBlockHash, blockHash) of the committing block", "commit passes the wrong hashes to commitRound")
